@@ -125,6 +125,7 @@ namespace vh {
         FAULT_STALL = 8,
     };
     void begin_sim(RunCtx& ctx, sim_config const& cfg);
+    void install_crash_handlers();
 
     // workload registry
     struct Workload
